@@ -335,7 +335,85 @@ func evalC19Seq(c C19SeqCase) *h.Finding {
 	return nil
 }
 
+// ---- the error budget across a STARTTLS upgrade ---------------------------------------------------------
+
+type C19TLSCase struct {
+	Before string `json:"before"` // bad commands sent in plaintext: letters u (unknown verb), m (mangled), e (empty line)
+	After  string `json:"after"`  // bad commands sent inside TLS
+}
+
+func c19BadLine(ch byte) string {
+	switch ch {
+	case 'u':
+		return "XXXX nothing\r\n"
+	case 'm':
+		return "NOOPX\r\n"
+	}
+	return "\r\n"
+}
+
+// evalC19TLS: "more than three unrecognised or malformed commands" is counted per connection; a successful STARTTLS
+// in between does not hand out a fresh budget.
+func evalC19TLS(c C19TLSCase) *h.Finding {
+	var f *h.Finding
+	desc := fmt.Sprintf("bad commands %q in plaintext, STARTTLS, then %q inside TLS", c.Before, c.After)
+	cfg, be := serverFor(ref.PConfig{TLSAvail: true, AllowInsecureAuth: true, AuthBackend: true})
+	leak, pan := h.Bubble(func() {
+		live := h.NewLive(cfg, be, false)
+		live.Greeting()
+		errs := 0
+		closedAt := -1
+		send := func(l string) []ref.Reply {
+			rs, _ := ref.ParseRepliesLenient(live.Send([]byte(l)))
+			return rs
+		}
+		send("EHLO c.example\r\n")
+		for i := 0; i < len(c.Before); i++ {
+			send(c19BadLine(c.Before[i]))
+			errs++
+		}
+		if rs := send("STARTTLS\r\n"); len(rs) != 1 || rs[0].Code != 220 {
+			f = h.F("c19-tls-harness", "%s: STARTTLS not accepted: %v", desc, rs)
+			return
+		}
+		if err := live.StartTLSHandshake(); err != nil {
+			f = h.F("c19-tls-harness", "%s: handshake: %v", desc, err)
+			return
+		}
+		send("EHLO c.example\r\n")
+		for i := 0; i < len(c.After); i++ {
+			rs := send(c19BadLine(c.After[i]))
+			errs++
+			if live.Done && closedAt < 0 {
+				closedAt = errs
+			}
+			if errs < 4 && (live.Done || len(rs) != 1 || rs[0].Class() != 5) {
+				f = h.F("c19-threshold", "%s: bad command number %d of the connection was answered %v (connection closed: %t), want one 5xx reply and an open connection", desc, errs, rs, live.Done)
+				return
+			}
+			if errs == 4 {
+				if !live.Done {
+					f = h.F("c19-threshold", "%s: the connection is still open after the 4th unrecognised/malformed command (3 are tolerated per connection; the upgrade does not reset the count): replies %v", desc, rs)
+				}
+				return
+			}
+		}
+		live.Hangup(h.TermEOF)
+	})
+	if f != nil {
+		return f
+	}
+	if pan != "" {
+		return h.F("c19-panic", "%s: %s", desc, pan)
+	}
+	if leak != "" {
+		return h.F("c19-deadlock", "%s: %.200s", desc, leak)
+	}
+	return nil
+}
+
 func init() {
+	h.RegisterReplayer("c19-tls", evalC19TLS)
 	h.RegisterReplayer("c19-line", evalC19Line)
 	h.RegisterReplayer("c19-str", evalC19Str)
 	h.RegisterReplayer("c19-seq", evalC19Seq)
@@ -390,7 +468,7 @@ func C19(tier string) int {
 			}
 		}
 	}
-	run.Rule = fmt.Sprintf("(a) line limits %v x positions %v x {padded NOOP, padded MAIL command} x total line length limit-2..limit+4 x segmentation {line in one segment, one octet per segment, every 2-split of the line (limits 16, 64) / 2-splits around the limit (2000)}; (b) an endless LF-free line of 1 MiB at every position x {one segment, 4 KiB segments, per octet}: octets taken before closing <= limit + 2*4096; (c) ALL strings of <=%d octets over {NUL,CR,LF,SP,'A','a',':','<',0xFF} as command input in states {fresh, greeted, in transaction} x {one segment, per octet}; (d) ALL sequences of <=%d commands over {NOOP, unknown verb, mangled, empty line} and of one less over {NOOP, unknown, mangled, empty, too short, no space after the verb, MAIL} (two less), and over {unknown, mangled, RSET, repeated EHLO} x {fresh, greeted} x {one segment, one per line, per octet}; (e) labelled supplement: seeded random binary input. Distinct by construction; non-trivial = line length within 2 of the limit or over it / string contains a control octet / sequence contains an error. Oracle: never a panic (escaped or recovered); >= limit+2: exactly one 500 5.4.0, closed, no backend call from the line or a prefix of it; <= limit: never refused for length, line and following NOOP answered; limit+1 not judged; exactly the 4th error closes with one extra 500.", limits, positions, strLen, seqLen)
+	run.Rule = fmt.Sprintf("(a) line limits %v x positions %v x {padded NOOP, padded MAIL command} x total line length limit-2..limit+4 x segmentation {line in one segment, one octet per segment, every 2-split of the line (limits 16, 64) / 2-splits around the limit (2000)}; (b) an endless LF-free line of 1 MiB at every position x {one segment, 4 KiB segments, per octet}: octets taken before closing <= limit + 2*4096; (c) ALL strings of <=%d octets over {NUL,CR,LF,SP,'A','a',':','<',0xFF} and ALL strings of up to 3 octets more over {CR,LF,'A',SP}, as command input in states {fresh, greeted, in transaction} x {one segment, per octet}; (d) ALL sequences of <=%d commands over {NOOP, unknown verb, mangled, empty line} and of one less over {NOOP, unknown, mangled, empty, too short, no space after the verb, MAIL} (two less), and over {unknown, mangled, RSET, repeated EHLO} x {fresh, greeted} x {one segment, one per line, per octet}; (f) ALL splits of <=4 bad commands over {unknown, mangled, empty} into a plaintext part (<=3) and a part inside TLS after a real STARTTLS handshake: the count runs per connection; (e) labelled supplement: seeded random binary input. Distinct by construction; non-trivial = line length within 2 of the limit or over it / string contains a control octet / sequence contains an error. Oracle: never a panic (escaped or recovered); >= limit+2: exactly one 500 5.4.0, closed, no backend call from the line or a prefix of it; <= limit: never refused for length, line and following NOOP answered; limit+1 not judged; exactly the 4th error closes with one extra 500.", limits, positions, strLen, seqLen)
 	run.Assumptions = []string{"'unrecognised or malformed command' = unknown verb, empty line, or a line parseCmd cannot split; commands with a known verb and bad arguments are not in the threshold sequences", "message lines inside DATA are not command lines and are not judged here", "known finding D6 (limiter counts BDAT payload sharing a raw read) is demonstrated by one directed family and matched by signature"}
 
 	h.ParallelFor(len(lineCases), func(i int) {
@@ -440,6 +518,13 @@ func C19(tier string) int {
 	// (c) all short strings
 	var strs [][]byte
 	enumStrings(c19Alphabet, strLen, func(s []byte) { strs = append(strs, append([]byte(nil), s...)) })
+	// longer strings over the four octets the command splitter distinguishes by position (runs of bare CR in front of
+	// the line end, spaces, letters): lengths strLen+1..strLen+3
+	enumStrings([]byte{'\r', '\n', 'A', ' '}, strLen+3, func(s []byte) {
+		if len(s) > strLen {
+			strs = append(strs, append([]byte(nil), s...))
+		}
+	})
 	h.ParallelFor(len(strs), func(i int) {
 		if run.Expired() {
 			return
@@ -496,6 +581,26 @@ func C19(tier string) int {
 		}
 	})
 	run.Outcome("sequences-ok")
+
+	// (f) the error budget across a STARTTLS upgrade
+	var tcases []C19TLSCase
+	enumStrings([]byte("ume"), 3, func(b []byte) {
+		enumStrings([]byte("ume"), 4, func(a []byte) {
+			if len(b)+len(a) >= 1 && len(b)+len(a) <= 4 && (len(b)+len(a) == 4 || len(a) > 0) {
+				tcases = append(tcases, C19TLSCase{Before: string(b), After: string(a)})
+			}
+		})
+	})
+	h.ParallelFor(len(tcases), func(i int) {
+		c := tcases[i]
+		f := evalC19TLS(c)
+		run.Eval(true)
+		if f != nil {
+			run.Violate("c19-tls", c, f, func() *h.Finding { return evalC19TLS(c) })
+			run.Outcome("violation:" + f.Sig)
+		}
+	})
+	run.Outcome("tls-budget-ok")
 
 	// (e) labelled supplement: random binary input
 	rng := rand.New(rand.NewSource(run.Seed))
